@@ -3,10 +3,10 @@ VIEW View
 CHECK_DEADLOCK FALSE
 CONSTANTS Depth = 3
           MaxActs = 3
-          Fms = {0, 1}
+          Fm0 = TRUE
           Abstract = TRUE
-          FullFirst = TRUE
-          Starts = {"two", "one", "empty"}
+          FullFirst = FALSE
+          Starts = {"two", "empty"}
           MaxRow = 3
           TwoCols = 6
 INVARIANT TypeOK
